@@ -1332,3 +1332,17 @@ M("C11-benign-zero-test-positive", "C11", "src/interrogate/interrogateBuilder.cx
   "      if (make_seq_index != 0) {\n        itype._make_seqs.push_back(make_seq_index);\n      }",
   "      if (make_seq_index > 0) {\n        itype._make_seqs.push_back(make_seq_index);\n      }",
   benign=True)
+
+# ---------------------------------------------------------------- R05.9 (F-C05b)
+M("C05-getter-shadows-later-method", "C05", "src/interrogate/interrogateBuilder.cxx",
+  "  if (scope != nullptr && scope->_functions.count(fname) != 0) {\n    return 0;\n  }\n\n  ostringstream desc;\n  desc << \"getter for \";",
+  "  ostringstream desc;\n  desc << \"getter for \";",
+  expect="R05.9|get_getter|synthesis|only-if-name-not-declared-in-scope")
+M("C05-setter-ignores-scanned-functions", "C05", "src/interrogate/interrogateBuilder.cxx",
+  "  // function for a synthesized setter.\n  string function_name = TypeManager::get_function_name(function);\n  if (_functions_by_name.count(function_name) != 0) {\n    return 0;\n  }",
+  "  // function for a synthesized setter.\n  string function_name = TypeManager::get_function_name(function);",
+  expect="R05.9|get_setter|synthesis|only-if-name-not-already-scanned")
+M("C05-benign-accessor-collision-find", "C05", "src/interrogate/interrogateBuilder.cxx",
+  "  if (scope != nullptr && scope->_functions.count(fname) != 0) {\n    return 0;\n  }\n\n  ostringstream desc;\n  desc << \"getter for \";",
+  "  if (scope != nullptr && scope->_functions.find(fname) != scope->_functions.end()) {\n    return 0;\n  }\n\n  ostringstream desc;\n  desc << \"getter for \";",
+  benign=True)
